@@ -184,7 +184,11 @@ def gen(rng, tier, index=0):
                 break
         arm(name, t)
     stop_at = round(t + rng.choice([0.0, 0.001, 0.3, 1.0, 5.0]), 6)
-    return {'knobs': knobs, 'blocks': blocks, 'ops': ops, 'stop_at': stop_at, 'drain': 200.0}
+    plan = {'knobs': knobs, 'blocks': blocks, 'ops': ops, 'stop_at': stop_at, 'drain': 200.0}
+    # fault: bystander blocks whose stop() raises (an error in one block's clean-up must not
+    # keep the FSMs from being stopped; where they come in the stop order is up to hash_salt)
+    plan['failstop'] = rng.choice([0, 0, 0, 0, 1, 2, 3])
+    return plan
 
 
 # --------------------------------------------------------------------------- monitor
@@ -413,9 +417,23 @@ class Monitor:
 
 # --------------------------------------------------------------------------- execution
 
+class FailStop(edzed.SBlock):
+    """Bystander whose clean-up fails."""
+
+    def init_regular(self):
+        self.set_output(0)
+
+    def stop(self):
+        super().stop()
+        self.x_run.fired('fault:user_fn_raises:stop')
+        raise RuntimeError(f"injected stop() failure in {self.name}")
+
+
 def build(run, plan):
     monitors = {}
     rec_n = 0
+    for i in range(int(plan.get('failstop', 0))):
+        FailStop(f"failstop{i}", x_run=run)
     for b in plan['blocks']:
         model = make_model(b)
         mon = Monitor(run, b, None, model)
